@@ -23,7 +23,7 @@ RULE = (
     "(what every optimiser step does); ModelWrapper cases with identity / channel-permuting inner models on unique ids; three "
     "fixed partial-bank U-Net configurations. Non-trivial: >=2 output types or conventional relayout with k>=1; distinct by configuration."
 )
-RULE += " Also: a group-averaged variant of every third model, kernel sizes, Climate1D cases (past/future 1..3, every type order)."
+RULE += " ModelWrapper is also called on batched inputs and with inner models that change the channel count. Also: a group-averaged variant of every third model, kernel sizes, Climate1D cases (past/future 1..3, every type order)."
 ASSUMPTIONS = ["type order is checked on eager calls only (under jit JAX sorts dict keys; C12/C13 say order must then not matter)", "reachability computed from the bank's type set (vmon/mlgen.py:type_flow)"]
 ANCHORS = [
     "ginjax.models:UNet.__call__", "ginjax.models:ResNet.__call__", "ginjax.models:DilResNet.__call__", "ginjax.models:ConvBlock.__call__", "ginjax.models:ModelWrapper.__call__",
@@ -243,34 +243,41 @@ def run_wrapper(case, ctx):
     sig = [(t, int(rng.integers(1, 4))) for t in types]
     sp = tuple(int(v) for v in rng.integers(1, 4, size=D))
     torus = tuple(bool(v) for v in rng.integers(0, 2, size=D))
+    # the wrapper is also called directly on batched inputs (a leading batch axis in front of the channels)
+    lead = () if rng.integers(0, 2) else (int(rng.integers(2, 5)),)
     blocks, nid = {}, 1
     for (k, p), c in sig:
-        shp = (c,) + sp + (D,) * k
+        shp = lead + (c,) + sp + (D,) * k
         n = int(np.prod(shp))
         blocks[(k, p)] = (nid + np.arange(n)).reshape(shp).astype(np.float32)
         nid += n
     x = geom.MultiImage({t: jnp.asarray(v) for t, v in blocks.items()}, D, torus)
     C = sum(c * D ** t[0] for t, c in sig)
-    mode = ["identity", "permute"][int(rng.integers(2))]
-    perm = np.arange(C) if mode == "identity" else rng.permutation(C)
-    # output layout: same multiset of scalar channels, regrouped into another signature of the same size
-    out_sig = sig if mode == "identity" or rng.integers(0, 2) else sig[::-1]
+    mode = ["identity", "permute", "resample"][int(rng.integers(3))]
+    # output layout: identity / a permutation of the scalar channels regrouped into a signature of the same size / an inner
+    # model that changes the number of channels (selects and repeats input channels) with an unrelated output signature
+    out_sig = sig if mode == "identity" or (mode == "permute" and rng.integers(0, 2)) else sig[::-1]
+    if mode == "resample":
+        otypes = [pool[i] for i in rng.choice(len(pool), size=int(rng.integers(1, 4)), replace=False)]
+        out_sig = [(t, int(rng.integers(1, 4))) for t in otypes]
+    C_out = sum(c * D ** t[0] for t, c in out_sig)
+    perm = np.arange(C) if mode == "identity" else (rng.permutation(C) if mode == "permute" else rng.integers(0, C, size=C_out))
 
     class Inner(eqx.Module):
-        perm: np.ndarray = eqx.field(static=True)
+        perm: tuple = eqx.field(static=True)
 
         def __call__(self, arr):
-            return arr[np.asarray(self.perm)]
+            return jnp.take(arr, jnp.asarray(self.perm), axis=arr.ndim - D - 1)
 
-    key = {"D": D, "sig": sig, "out_sig": out_sig, "sp": sp, "mode": mode}
+    key = {"D": D, "sig": sig, "out_sig": out_sig, "sp": sp, "mode": mode, "lead": lead}
     viols = []
     _struct.take()
     try:
         wrapper = models.ModelWrapper(D, Inner(tuple(int(v) for v in perm)), mlgen.signature(out_sig), torus)
         y = wrapper(x)[0]
         # the models flatten their input in sorted type order (what jit/vmap produce); outputs are assigned in output_keys order
-        flat = rmisc.to_scalar_layout({t: blocks[t] for t in sorted(blocks)}, D, 1)
-        want = rmisc.from_scalar_layout(flat[perm], out_sig, D, 1)
+        flat = rmisc.to_scalar_layout({t: blocks[t] for t in sorted(blocks)}, D, 1 + len(lead))
+        want = rmisc.from_scalar_layout(np.take(flat, perm, axis=len(lead)), out_sig, D, 1 + len(lead))
         got_sig = [(tuple(t), int(c)) for t, c in y.get_signature()]
         if got_sig != [(t, c) for t, c in out_sig]:
             viols.append(viol("wrapper-output-signature", f"ModelWrapper returned {got_sig}, requested {out_sig}"))
@@ -287,7 +294,7 @@ def run_wrapper(case, ctx):
 
         viols.append(viol(f"wrapper-exception-{type(e).__name__}", f"{type(e).__name__}: {str(e)[:300]}; {key}; {traceback.format_exc()[-300:]}"))
     viols += _struct.take()[:2]
-    return result({"kind": "wrapper", **key}, viols, any(t[0] >= 1 for t, _ in sig), evals=1, obs={"wrapper_calls": 1}, hist={"cls": "ModelWrapper", "D": D, "equivariant": False}, sample={"cfg": key})
+    return result({"kind": "wrapper", **key}, viols, any(t[0] >= 1 for t, _ in sig), evals=1, obs={"wrapper_calls": 1}, hist={"cls": "ModelWrapper", "D": D, "equivariant": False, "wrapper_mode": mode + ("-batched" if lead else "")}, sample={"cfg": key})
 
 
 def finalize(tier, results, obs, hist, metas):
